@@ -61,6 +61,27 @@ def r1_preprocessing(ctx):
         mi_defs = [d for d in rdh.defs if isinstance(d.value, ast.Call) and ctx.res.resolve_call(h, d.value)[0] == 'repo' and ctx.res.resolve_call(h, d.value)[1][0].qualname == MI]
         if mi_defs:
             hosts.append((h, mi_defs))
+    if not hosts and not ctx.prog.has_func(MI):
+        # the helper was written out in parse: the local bound from min(<indentation of the non-blank lines of X>)
+        rdh = ctx.rd(fp)
+        mins = [d for d in rdh.defs if isinstance(d.value, ast.Call) and is_name(d.value.func, 'min') and d.value.args]
+        if len({d.name for d in mins}) == 1:
+            d0 = mins[0]
+            feed = d0.value.args[0]
+            if isinstance(feed, ast.Name):
+                fd = rdh.at(d0.node, feed.id)
+                feed = fd[0].value if len(fd) == 1 and isinstance(fd[0].value, ast.AST) else None
+            srcs = set()
+            if feed is not None:
+                bound = {y.id for x in ast.walk(feed) if isinstance(x, ast.comprehension) for y in ast.walk(x.target) if isinstance(y, ast.Name)}
+                srcs = {x.id for x in ast.walk(feed) if isinstance(x, ast.Name) and isinstance(x.ctx, ast.Load) and x.id not in bound and rdh.defs_of(x.id)}
+            if len(srcs) == 1:
+                class _Shim:
+                    pass
+                mi_ = _Shim()
+                mi_.name, mi_.node = d0.name, d0.node
+                mi_.value = ast.Call(func=ast.Name(id='min', ctx=ast.Load()), args=[ast.Name(id=srcs.pop(), ctx=ast.Load())], keywords=[])
+                hosts = [(fp, [mi_])]
     need(len(hosts) == 1 and len(hosts[0][1]) == 1, 'C13.R1: _min_indentation(string) not bound to one local in parse (or in one helper it calls)')
     f, (mi,) = hosts[0]
     g = ctx.cfg(f)
@@ -130,7 +151,7 @@ def r1_preprocessing(ctx):
         rep.ob('C13.R1', ctx.loc(fp, c), ctx.src(c), okl,
                'the labeller receives the tab-expanded, de-indented text' if okl else 'the labeller can receive the raw docstring', anchor=PARSE)
     # min on a non-empty sequence only (or with a default)
-    fm = ctx.func(MI)
+    fm = ctx.func(MI) if ctx.prog.has_func(MI) else fp
     gm = ctx.cfg(fm)
     domm = ctx.dom(gm, gm.entry)
     for n in gm.nodes:
@@ -767,7 +788,7 @@ def r1b_common_indentation_of_one_line(ctx):
     """the common indentation is the minimum over the non-blank lines -- also when there is exactly ONE (a docstring or google block whose only
     indented line is one line of prose): the emptiness guard in front of min(...) must be true for a list of length 1 and false for length 0"""
     rep = ctx.rep
-    f = ctx.func('xdoctest.parser._min_indentation')
+    f = ctx.func('xdoctest.parser._min_indentation') if ctx.prog.has_func('xdoctest.parser._min_indentation') else ctx.func(PARSE)
     g = ctx.cfg(f)
     dom = ctx.dom(g, g.entry)
     mins = [(n, c) for n in g.nodes if not n.dup for c in node_calls(n) if is_name(c.func, 'min') and c.args]
